@@ -16,6 +16,14 @@ use tokio::time::Instant;
 
 use crate::util::{guard, read_lines};
 
+fn futures_noop_waker() -> std::task::Waker {
+    use std::task::{RawWaker, RawWakerVTable, Waker};
+    fn clone(_: *const ()) -> RawWaker { RawWaker::new(std::ptr::null(), &VT) }
+    fn noop(_: *const ()) {}
+    static VT: RawWakerVTable = RawWakerVTable::new(clone, noop, noop, noop);
+    unsafe { Waker::from_raw(RawWaker::new(std::ptr::null(), &VT)) }
+}
+
 async fn settle() {
     for _ in 0..8 {
         tokio::task::yield_now().await;
@@ -38,6 +46,17 @@ async fn run_case(secs: u64, ops: &[String]) -> String {
             "s" => { t.start(); settle().await; out.push(format!("s{}", t.is_running() as u8)); }
             "r" => { t.reset(); settle().await; out.push(format!("r{}", t.is_running() as u8)); }
             "x" => { t.stop_and_reset(); settle().await; out.push(format!("x{}", t.is_running() as u8)); }
+            "A" => {
+                // the clock moves on while no task gets a turn (synchronous work between two commands): tokio's advance() moves
+                // the paused clock on its first poll and only then yields - it is polled once, by hand, and dropped
+                use std::future::Future;
+                let d: u64 = arg.parse().unwrap();
+                let mut f = Box::pin(tokio::time::advance(Duration::from_millis(d)));
+                let w = futures_noop_waker();
+                let _ = f.as_mut().poll(&mut std::task::Context::from_waker(&w));
+                drop(f);
+                out.push("a".into());
+            }
             "a" => {
                 let d: u64 = arg.parse().unwrap();
                 tokio::time::advance(Duration::from_millis(d)).await;
